@@ -40,7 +40,7 @@ func syncLogDB(ctx context.Context, repo *chain.Repository, logDB *logdb.LogDB, 
 
 	bestNum := best.Header.Number()
 
-	if bestNum == startPos {
+	if startPos > bestNum {
 		return nil
 	}
 
@@ -126,7 +126,8 @@ func seekLogDBSyncPosition(repo *chain.Repository, logDB *logdb.LogDB) (uint32, 
 	}
 
 	if newestID == best.ID() {
-		return best.Number(), nil
+		// the best block itself is written: nothing left to sync
+		return best.Number() + 1, nil
 	}
 
 	seekStart := block.Number(newestID)
